@@ -6,12 +6,14 @@ implicit, order-only and validation inputs computed by a reference traversal; du
 examined or started.  Target-name resolution, `default` statements and -f/-C/builddir are covered by the run harness.
 """
 from checks import schedlib as S
+from checks import runlib as R
 
 LEVEL = 'model_checking'
 
 
 def run(ctx, out):
     S.run_check(ctx, out, 'C18', S.closure_families(ctx.tier), {'C18'})
+    R.run_run(ctx, out, 'C18', {'C18'})
     out.coverage.update({
         'explanation': 'states = path classes over wiring (incl. validation edges to any file) x target subset x dirty bits x schedule',
         'bounds': {'steps': 3, 'targets': 'every non-empty subset of size <= 2 of the outputs, or all files'},
